@@ -2,7 +2,9 @@
 package c16
 
 import (
+	"errors"
 	"fmt"
+	"io"
 	"regexp"
 	"strings"
 	"testing"
@@ -221,6 +223,29 @@ func run(c Case) (errsSeen []observed, texts map[string]string, inputs []string,
 			}
 			if _, err := jdoc.New("doc", c.Text).Len(); err != nil {
 				errsSeen = append(errsSeen, observed{"Document.Len", sut.Describe(err)})
+			}
+			// one Document asked several things one after the other: every rejection is a diagnostic
+			d := jdoc.New("doc", c.Text)
+			if _, err := d.Len(); err != nil {
+				errsSeen = append(errsSeen, observed{"Document.Len (same object, first)", sut.Describe(err)})
+			}
+			if err := d.Check(); err != nil {
+				errsSeen = append(errsSeen, observed{"Document.Check (same object, after Len)", sut.Describe(err)})
+			}
+			if _, err := d.Len(); err != nil {
+				errsSeen = append(errsSeen, observed{"Document.Len (same object, again)", sut.Describe(err)})
+			}
+			d2 := jdoc.New("doc", c.Text)
+			for i := 0; i < 4*len(c.Text)+16; i++ {
+				if _, err := d2.NextLexeme(); err != nil {
+					if !errors.Is(err, io.EOF) {
+						errsSeen = append(errsSeen, observed{"Document.NextLexeme", sut.Describe(err)})
+					}
+					break
+				}
+			}
+			if err := d2.Check(); err != nil {
+				errsSeen = append(errsSeen, observed{"Document.Check (same object, after the lexeme stream)", sut.Describe(err)})
 			}
 		})
 	}
